@@ -27,6 +27,7 @@ func relFile(from, to string) string {
 	return "./" + r
 }
 
+// ownFile[1]: the files other than the main one end with a second YAML document defining an unrelated service.
 // ownFile: a base in the same file (other than the main file) is referenced with an explicit `file:` naming that very file.
 func c05Materialize(wd string, nodes map[int]map[string]interface{}, files map[int]string, ownFile ...bool) (string, error) {
 	byFile := map[int]map[string]interface{}{}
@@ -78,6 +79,10 @@ func c05Materialize(wd string, nodes map[int]map[string]interface{}, files map[i
 	var mainDoc string
 	for f, svcs := range byFile {
 		doc := yamlTagged(map[string]interface{}{"services": svcs})
+		if f != 1 && len(ownFile) > 1 && ownFile[1] {
+			// the file has a second document that defines an unrelated service: everything the first says still holds
+			doc += "\n---\nservices:\n  unrelated-extra: {image: base}\n"
+		}
 		p := filepath.Join(wd, files[f])
 		if err := os.MkdirAll(filepath.Dir(p), 0o755); err != nil {
 			return "", err
@@ -269,7 +274,7 @@ func C05(c *core.Ctx) {
 		mkdirs(wd)
 		defer os.RemoveAll(wd)
 		nodes := nodesOf(cs["nodes"])
-		mainDoc, err := c05Materialize(wd, nodes, c05Files, idx%2 == 0)
+		mainDoc, err := c05Materialize(wd, nodes, c05Files, idx%2 == 0, idx%3 == 1)
 		if err != nil {
 			return err
 		}
